@@ -205,11 +205,18 @@ func runStreamConn(id int, c *streamCase, dp *dict.Parser, cnAt int) streamLine 
 		return l
 	}
 	pos := 0
-	for _, n := range c.Chunks {
-		mc.Feed(data[pos : pos+n])
+	withLast := cnAt > 0 && id%2 == 0 && len(c.Chunks) > 0 // the transport returns the last bytes together with the end of the stream
+	for k, n := range c.Chunks {
+		if withLast && k == len(c.Chunks)-1 {
+			mc.FeedLastWithErr(data[pos:pos+n], io.EOF)
+		} else {
+			mc.Feed(data[pos : pos+n])
+		}
 		pos += n
 	}
-	mc.FeedErr(io.EOF)
+	if !withLast {
+		mc.FeedErr(io.EOF)
+	}
 	if !mc.WaitClosed(10 * time.Second) {
 		l.Err = "connection not closed after end of stream"
 	}
